@@ -28,7 +28,7 @@ pub fn generate(ctx: &mut Ctx) {
     let mut bi = 0u64;
     let pats = gen::pct_patterns(true);
     for (i, p) in pats.iter().enumerate() {
-        if ctx.tiny() && i % 32 != (ctx.seed % 32) as usize {
+        if ctx.tiny() && i % 96 != (ctx.seed % 96) as usize {
             bi += 1;
             continue;
         }
